@@ -293,7 +293,7 @@ func init() {
 		c.Run.Set("corpus_lines", int64(len(picked)))
 		c.Run.Set("evaluations", int64(len(lines)+len(picked)))
 		c.Run.Set("distinct_nontrivial", int64(len(lines)))
-		c.Run.Set("rule", fmt.Sprintf("grammar expansion: 7 address forms (incl. bare domain) x 4 separators x name sequences of length 1..%d over 3 names x 12 comment forms x 3 trailing blanks (+ mixed separators; thorough: 5..8 names over 2 names); every line distinct; each through NewRule, NewHostRule, HostRule.Match on listed/truncated/extended names and (quick: every third line) a one-line DNSEngine", maxNames))
+		c.Run.Set("rule", fmt.Sprintf("grammar expansion: 7 address forms (incl. bare domain) x 4 separators x name sequences of length 1..%d over %d names (incl. colliding hashes, underscore, numeric last label, upper case, trailing dot) x %d comment forms (incl. element-hiding markers and a 4 KiB comment) x 3 trailing blanks (+ mixed separators; thorough: 5..8 names over 2 names); every line distinct; each through NewRule, NewHostRule, HostRule.Match on listed/truncated/extended names and (quick: every third line) a one-line DNSEngine; corpus layer: the lines of the bundled hosts file that are in the grammar, against an independent parse", maxNames, len(nameAlpha), len(c18Comments)))
 		c.Run.Set("exhaustive", exhaustive)
 		c.Run.Assumption("a double '#' is generated only after a space (otherwise the line is element-hiding syntax)")
 	})
